@@ -2,3 +2,4 @@
 import AkVerif.Model.Util
 import AkVerif.Props.C17
 import AkVerif.Props.C14
+import AkVerif.Props.C11
